@@ -24,7 +24,7 @@ ASSUMPTIONS = [
 ]
 MONITORS = ("lost-bytes accounting: {path: bytes} of the workspace before vs after against the set of intact cache objects; audit-hook trail of "
             "removals as witness; shadow model of the link table for clean-up")
-REQUIRED_COUNTERS = ["crlf_variants_of_tracked_text", "legacy_scans_through_the_same_state", "file_where_a_tree_goes_cases", "output_removed_cases", "symlinked_subdirectory_cases", "own_data_under_two_linked_names", "workspaces_with_stray_ignore_file", "second_attempts_after_refusal", "single_file_targets", "inode_only_replacements", "workspaces_with_dangling_symlink", "cleanups_after_checkout", "large_file_directories", "dir_links_with_duplicate_basenames", "damaged_cache_objects", "symlinked_link_records", "checkouts", "uncached_files_in_workspace", "prompt_errors", "declining_prompt_calls", "normal_returns", "kind_swap_cases",
+REQUIRED_COUNTERS = ["checkouts_from_a_read_only_store_handle", "prompt_calls_answered_yes", "crlf_variants_of_tracked_text", "legacy_scans_through_the_same_state", "file_where_a_tree_goes_cases", "output_removed_cases", "symlinked_subdirectory_cases", "own_data_under_two_linked_names", "workspaces_with_stray_ignore_file", "second_attempts_after_refusal", "single_file_targets", "inode_only_replacements", "workspaces_with_dangling_symlink", "cleanups_after_checkout", "large_file_directories", "dir_links_with_duplicate_basenames", "damaged_cache_objects", "symlinked_link_records", "checkouts", "uncached_files_in_workspace", "prompt_errors", "declining_prompt_calls", "normal_returns", "kind_swap_cases",
                      "link_histories", "unused_link_queries", "remove_links_calls", "relink_cases", "store/local", "store/base",
                      "link/copy", "link/hardlink", "link/symlink"]
 
@@ -176,15 +176,33 @@ def run_shard(ctx):
             which = rng.choice(["A", "B"])
             target = load(odb, (aobj if which == "A" else bobj).hash_info)
             tfiles = A if which == "A" else B
-            prompt_mode = rng.choice(["none", "decline"])
+            prompt_mode = rng.choice(["none", "decline", "decline", "agree-to-the-first-only"])
             calls = []
+            agreed = []
 
             def prompt(msg):
                 calls.append(msg)
+                if prompt_mode == "agree-to-the-first-only" and len(calls) == 1:
+                    # an affirmative answer - for this path, not for the ones asked about later
+                    agreed.append(msg)
+                    res.count("prompt_calls_answered_yes")
+                    return True
                 res.count("declining_prompt_calls")
                 return False
 
-            if link == "copy" and rng.random() < 0.3:
+            def agreed_to(k, follow=True):
+                # the question names the path to be removed: the file itself or a directory above it (a second name of the same
+                # data - a symlink to it - goes with the data)
+                if any(f"'{os.path.join(ws, *k[:i])}'" in m for m in agreed for i in range(len(k) + 1)):
+                    return True
+                pth = os.path.join(ws, *k)
+                if follow and agreed and os.path.islink(pth):
+                    rel = os.path.relpath(os.path.realpath(pth), os.path.realpath(ws))
+                    return not rel.startswith("..") and agreed_to(tuple(rel.split(os.sep)), follow=False)
+                return False
+
+            ro_handle = rng.random() < 0.15
+            if link == "copy" and rng.random() < (0.8 if ro_handle else 0.3):
                 # a damaged, unprotected cache object (e.g. left by an interrupted add) at the oid of a workspace file
                 from ..oracle import list_store
 
@@ -195,6 +213,10 @@ def run_shard(ctx):
                         gen.replace_by_rename(cobjs[o], file_bytes(cobjs[o])[:-1] + b"\x00damaged")
                         os.chmod(cobjs[o], 0o644)
                         res.count("damaged_cache_objects")
+            if ro_handle:
+                # the checkout reads from a handle on the cache that was opened read-only (it only ever reads from it)
+                odb = env.odb_of_class(cls, croot, state=state, type=[link], read_only=True)
+                res.count("checkouts_from_a_read_only_store_handle")
             pre_view = mtimes_of(ws) if os.path.isdir(ws) else {}
             before = walk_files(ws)
             intact = colab.cache_intact_digests(croot)
@@ -215,7 +237,7 @@ def run_shard(ctx):
             with Recorder([ws]) as rec:
                 try:
                     checkout(ws, fs, target, odb, force=False, relink=relink, state=state,
-                             prompt=prompt if prompt_mode == "decline" else None)
+                             prompt=prompt if prompt_mode != "none" else None)
                     res.count("normal_returns")
                 except PromptError as e:
                     outcome, perr = "PromptError", e
@@ -237,6 +259,9 @@ def run_shard(ctx):
                 if v is None:
                     continue
                 if after.get(k) != v and H("md5", v) not in intact:
+                    if agreed_to(k):
+                        res.count("uncached_files_given_up_by_an_affirmative_answer")
+                        continue
                     lost.append(k)
             if lost:
                 removals = [e for e in rec.events if e[0] in ("remove", "rmtree", "rename", "open-w", "rmdir")][:6]
@@ -248,7 +273,7 @@ def run_shard(ctx):
                 res.violation(f"uncached-user-file-{how}/{kind}/{outcome}" if not dangling else "uncached-user-file-destroyed/workspace-holds-dangling-symlink",
                               f"{'/'.join(k)} held bytes that are not in the cache and was {how} by a non-forced checkout ({outcome})",
                               case=case, detail={**cfg, "fs_events": removals})
-            if blockers and outcome == "returned" and not lost and not dangling:
+            if {k for k in blockers if not agreed_to(k)} and outcome == "returned" and not lost and not dangling:
                 res.violation("uncached-file-in-the-way-not-refused", f"checkout returned normally although {sorted('/'.join(k) for k in blockers)[:2]} hold uncached data in the way",
                               case=case, detail=cfg)
             if perr is not None:
@@ -266,14 +291,19 @@ def run_shard(ctx):
                 res.count("second_attempts_after_refusal")
                 out2 = "returned"
                 try:
-                    checkout(ws, fs, target, odb, force=False, relink=relink, state=state, prompt=prompt if prompt_mode == "decline" else None)
+                    checkout(ws, fs, target, odb, force=False, relink=relink, state=state, prompt=prompt if prompt_mode != "none" else None)
                 except (PromptError, CheckoutError, LinkError) as e:
+                    out2 = type(e).__name__
+                except OSError as e:
+                    # (loud) the removal the user agreed to at the first attempt may have left a second name of that data dangling
+                    if not (dangling or agreed):
+                        raise
                     out2 = type(e).__name__
                 aft2 = walk_files(ws)
                 if out2 == "returned":
                     outcome = "returned-on-second-attempt"  # a successful checkout may record the workspace as its own
                 for k, v in mid0.items():
-                    if v is not None and aft2.get(k) != v and H("md5", v) not in intact:
+                    if v is not None and aft2.get(k) != v and H("md5", v) not in intact and not agreed_to(k):
                         res.violation(f"uncached-user-file-destroyed-by-second-attempt/after-{outcome}",
                                       f"{'/'.join(k)} holds bytes that are not in the cache; the checkout was refused ({outcome}) and a second non-forced attempt ({out2}) destroyed it",
                                       case=case, detail=cfg)
